@@ -34,6 +34,8 @@ def c02(tier):
         for i in rng:
             steps.append(op(0, "LINDEX", "l", i))
         steps.append(op(0, "LLEN", "l"))
+        for big in ("4611686018427387904", "9223372036854775807", "-9223372036854775808", "-4611686018427387904"):
+            steps += [op(0, "LINDEX", "l", big), op(0, "LRANGE", "l", big, big), op(0, "LRANGE", "l", "0", big)]
         cases.append(("c02-read-%d" % n, "mem", steps))
         # destructive ones: a fresh list per call (DEL + RPUSH inside one case keeps it cheap)
         steps = []
@@ -197,6 +199,8 @@ def c01(tier):
                 if n <= 2:
                     steps.append(op(0, "BITCOUNT", "s", s, t, "BIT"))
         steps += [op(0, "BITCOUNT", "s"), op(0, "STRLEN", "s")]
+        for big in ("4611686018427387904", "9223372036854775807"):
+            steps += [op(0, "GETBIT", "s", big), op(0, "GETRANGE", "s", big, big), op(0, "GETRANGE", "s", "0", big), op(0, "BITCOUNT", "s", "0", big)]
         for off in range(0, 8 * n + 10, 3):
             steps.append(op(0, "GETBIT", "s", off))
     cases.append(("c01-ranges", "mem", steps))
